@@ -195,10 +195,18 @@ func childC12(a []string) string {
 			return "setup-error:" + err.Error()
 		}
 		p, _ := sess.Proxy("PingPong", 1)
-		obj := bus.MakeObject(p)
+		// the client has a second connection: subscription ids registered on one, unregistered on the other
+		sess2, err := session.NewSession(w.addr)
+		if err != nil {
+			return "setup-error:" + err.Error()
+		}
+		defer sess2.Terminate()
+		p2, _ := sess2.Proxy("PingPong", 1)
+		objs := []bus.ObjectProxy{bus.MakeObject(p), bus.MakeObject(p2)}
 		ids := []uint64{4242, 4242, 1, 0, 1 << 63, 4242, 7}
 		for i := 0; i < 40; i++ {
 			uid := ids[r.Intn(len(ids))]
+			obj := objs[r.Intn(2)]
 			done := make(chan struct{})
 			go func() {
 				defer close(done)
